@@ -116,6 +116,11 @@ func (q *rpcQueue) Pop(ctx context.Context) (*RPC, error) {
 		// Wake up all the waiting routines. The only routine that correponds
 		// to this Pop call will return from the function. Note that this can
 		// be expensive, if there are too many waiting routines.
+		//
+		// Hold the mutex: otherwise the broadcast can land after Pop has
+		// checked the context but before it waits, and the wake-up is lost.
+		q.queueMu.Lock()
+		defer q.queueMu.Unlock()
 		q.dataAvailable.Broadcast()
 	})
 	defer unregisterAfterFunc()
